@@ -49,7 +49,7 @@ PROPS = {
 PROBES = {'C03': ['stopped_by_max_iterations', 'converged_at_min_iterations', 'converged_in_between', 'condition_false', 'subgroup_condition_false',
                   'update_nnps_changed_neighbours', 'stop_idx_below_real', 'real_false_with_ghosts', 'named_start_stop',
                   'sim_schedule', 'several_destinations', 'python_callbacks_compared', 'periodic_domain', 'ghosts_refreshed',
-                  'second_evaluation_after_update_particle_arrays']}
+                  'second_evaluation_after_update_particle_arrays', 'stage_0_of_a_multi_stage_problem']}
 
 
 # ----------------------------------------------------------------------------
@@ -127,7 +127,8 @@ HANDCRAFTED = [
         _g(stop=6, eqs=[['TInit', 'f', None, 1.0], ['TLoop', 'f', ['f', 'g'], 2.0], ['TPost', 'f', None, 3.0]]),
         _g(label='L1', start=2, stop=7, real=1, eqs=[['TFull', 'g', ['f'], 2.0]]),
         _g(label='L2', eqs=[['TReduce', 'f', None, 1.0], ['TPyInit', 'g', None, 2.0]]),
-        _g(label='L3', stop=0, eqs=[['TInit', 'f', None, 5.0], ['TLoop', 'g', ['f'], 1.0]])]),
+        _g(label='L3', stop=0, eqs=[['TInit', 'f', None, 5.0], ['TLoop', 'g', ['f'], 1.0], ['TReduce', 'f', None, 2.0],
+                                    ['TPyInit', 'g', None, 1.0]])]),
     # named start/stop, real=False, several destinations and a conditional sub-group under an iterated conditional parent
     dict(arrays=['f', 'g'], groups=[
         _g(real=0, start='c_start', stop='c_stop', eqs=[['TInitPair', 'f', ['g', 'f'], 1.0], ['TLoopAll', 'g', ['f'], 2.0], ['TPost', 'g', None, 1.0]]),
@@ -224,7 +225,7 @@ def _scenario(t, pid, sim_override=None):
                 periodic=int(t.bool(0.3)),
                 sim=int(t.bool(0.5)) if sim_override is None else sim_override, sched_seed=t.int(0, 1 << 30), threads=t.choice([2, 3, 4]),
                 # a second evaluation after update_particle_arrays() with new array objects (other sizes, values, named ranges)
-                rebind=(_gen_arrays(t, prog, dim) if t.bool(0.25) else None))
+                rebind=(_gen_arrays(t, prog, dim) if t.bool(0.25) else None), second_stage=int(t.bool(0.2)))
 
 
 def _all_groups(prog):
@@ -639,10 +640,25 @@ def execute(sc, prop):
     # text: restart it so that a program always generates the same text
     import pysph.sph.equation as _EQ
     _EQ.group_counter = _EQ._counter()
-    groups, _ = build_groups(prog, env, dx)
+    groups, mirror_real = build_groups(prog, env, dx)
     try:
-        ae = AccelerationEval(arrays, groups, CubicSpline(dim=dim))
-        SPHCompiler(ae, None).compile()
+        if sc.get('second_stage'):
+            # the program is stage 0 of a multi-stage problem whose second stage uses the same equation objects in another
+            # order (only stage 0 is evaluated)
+            from pysph.sph.equation import Group, MultiStageEquations
+            from pysph.sph.acceleration_eval import make_acceleration_evals
+            objs = []
+            for m in mirror_real:
+                for mm in (m['subs'] if m['subs'] is not None else [m]):
+                    objs.extend(mm['eqs'] or [])
+            evals = make_acceleration_evals(arrays, MultiStageEquations([groups, [Group(equations=list(reversed(objs)))]]),
+                                            CubicSpline(dim=dim))
+            SPHCompiler(evals, None).compile()
+            ae = evals[0]
+            probe('stage_0_of_a_multi_stage_problem')
+        else:
+            ae = AccelerationEval(arrays, groups, CubicSpline(dim=dim))
+            SPHCompiler(ae, None).compile()
         nnps = LinkedListNNPS(dim=dim, particles=arrays, radius_scale=rs, sort_gids=True, cache=bool(sc.get('sched_seed', 0) % 2),
                               domain=mk_domain())
         ae.set_nnps(nnps)
